@@ -118,6 +118,8 @@ class Repo:
         inv = normalize.load_inventory()
         normalize.unroll_constant_loops(self.modules, self.norm_log)
         normalize.desugar_ifexp(self.modules)
+        normalize.decision_tables(self.modules, self.norm_log)
+        normalize.first_truthy_chains(self.modules, self.norm_log)
         normalize.project_records(self.modules, self.norm_log)
         if inv is not None:
             normalize.apply_renames(self.modules, normalize.plan_renames(self.modules, inv), self.norm_log)
